@@ -44,6 +44,7 @@ class C03(Pipeline):
         "the whole-multistore diff recorded as `suspect` (changed keys of the Paloma module stores whose key or value contains A's / B's address bytes or bech32 strings) is a discovery aid, not a verdict",
         "two-message transactions (action Deliver2): one really signed transaction of A carrying an honest message of A (creator = named = A) and a message in B's name (creator = named = B, Metadata.Signers = {A}), in both orders, the second position ranging over one kind per module (quick) / every plain kind (thorough), under the same fee-grant relations; the world holds the objects of both kinds",
         "ownership that was handed over (kinds ...Handed): the factory denoms factory/<A>/sh and factory/<B>/sh were created (5 minted) by A resp. B, who then gave the admin role to the other principal with MsgChangeAdmin (set-up through the tokenfactory msg server), and the new admin minted 5 more; the named principal of these kinds is the CURRENT admin, whose denom name carries the other principal. Factory denoms (admin, bank metadata, supply) and both bridge mapping records of a denom (denom -> erc20, erc20 -> denom) are attributed to the denom's current admin. No other Paloma object has a transferable owner (scheduler jobs, user smart contracts, light-node licences, pool transfers and validator records have no hand-over message)",
+        "key collisions (action DeliverK): for every kind that creates or upserts an object under a sender-chosen key in a namespace shared by all principals (scheduler job id; factory sub-denom; the ERC-20 address a factory denom is bound to; light-node client address; external-chain address of a validator; validator address of a relayer fee record; base denom of bank metadata) the key is a variant of the key of an object the named principal already owns: equal, letter case changed, leading / trailing blank, './' segment, 'x/../' segment ('../<owner>/sa' for a sub-denom); the world holds that object for A and for B (jobs job-1/job-2, denoms factory/<p>/sa - bound to an ERC-20 of the admin's choosing for the ERC-20 kind, with an unbound factory/<p>/su to bind -, licence records, registered external addresses, relayer fee records); message ids / contract ids are assigned by the chain and have no sender-chosen key",
         "nested execution paths that bypass the ante chain by design (x/authz MsgExec, x/gov proposals submitted by others, wasm-dispatched messages) authorise through their own grant / vote / contract rules and are not enumerated, except governance execution itself",
         "MsgSubmitBadSignatureEvidence carrying the named validator's own external-chain signature over a batch that never existed jails that validator: treated like a batch confirmation (the named validator's own signature over the exact item) - the monitors allow this write; the variant signed with the creator's own key and the legacy Sender field naming somebody else must leave the named principal untouched",
     ]
@@ -64,7 +65,7 @@ class C03(Pipeline):
         ]
 
     def nontrivial(self, evs):
-        return any(e["act"] in ("Deliver", "Deliver2") and e.get("cls") not in ("build", "block") for e in evs)
+        return any(e["act"] in ("Deliver", "Deliver2", "DeliverK") and e.get("cls") not in ("build", "block") for e in evs)
 
     def drive(self, histories):
         t0 = time.time()
@@ -107,6 +108,13 @@ class C03(Pipeline):
         self._two = {"transactions": len(d2), "ok": d2ok, "fail": d2fail, "second_kinds": sorted({e["args"]["k2"] for e in d2})}
         if d2ok < 5 or len(self._two["second_kinds"]) < 8:
             raise vk.Broken("vacuous drive: two-message transactions: %s" % self._two)
+        dk = [e for e in events if e["act"] == "DeliverK"]
+        self._keyed = {"deliveries": len(dk), "ok": sum(1 for e in dk if e["res"] == "ok"), "fail": sum(1 for e in dk if e["res"] != "ok"),
+                       "kinds": sorted({e["args"]["kind"] for e in dk}), "variants": sorted({e["args"]["v"] for e in dk}),
+                       "accepted": sorted({"%s:%s:%s" % (e["args"]["kind"], e["args"]["v"], "own" if e["args"]["n"] == e["args"]["c"] else "foreign")
+                                           for e in dk if e["res"] == "ok"})}
+        if len(self._keyed["kinds"]) < 7 or len(self._keyed["variants"]) < 6 or self._keyed["ok"] < 5 or self._keyed["fail"] < 5:
+            raise vk.Broken("vacuous drive: key collisions: %s" % self._keyed)
         dl = [e for e in events if e["act"] == "Deliver"]
         granted = sum(1 for e in dl if e["res"] == "ok" and e["args"]["s"] != e["args"]["c"] and e["args"]["s"] != 3)
         viagov = sum(1 for e in dl if e.get("via") == "gov" and e["res"] == "ok")
@@ -125,7 +133,7 @@ class C03(Pipeline):
         ev = getattr(self, "_events", [])
         reg = next((e for e in ev if e["act"] == "Registry"), None)
         out = {"per_kind_results": getattr(self, "_per_kind", {}), "coverage_gaps": getattr(self, "_gaps", []),
-               "two_message_transactions": getattr(self, "_two", {})}
+               "two_message_transactions": getattr(self, "_two", {}), "key_collisions": getattr(self, "_keyed", {})}
         if reg:
             urls = {t["url"] for t in reg["table"]}
             out["message_types"] = {"registered_by_paloma_modules": len(reg["reg"]), "served_by_router": len(reg["routed"]),
@@ -300,6 +308,15 @@ class C03(Pipeline):
             evs = copy.deepcopy(byh[h7[0]])
             evs[h7[1]]["obs"]["post"]["B"][17] += 9      # component erc20 of the current admin B
             jobs["altered_handed_over_mapping_noticed"] = (evs, lambda v: any(n == "C03.NoForeignWrite" for n, _, _ in v.monfail))
+        # 8. a job-id collision (A's CreateJob with a case variant of B's job id): B's job altered in the record -> NoForeignWrite
+        h8 = next(((hh, kk) for hh, ee in byh.items() for kk, e in enumerate(ee)
+                   if e["act"] == "DeliverK" and e["args"] == {"kind": "ScCreateJob", "s": 1, "c": 1, "n": 2, "v": "case"}), None)
+        if h8 is None:
+            skipped.append("overwritten_colliding_object_noticed")
+        else:
+            evs = copy.deepcopy(byh[h8[0]])
+            evs[h8[1]]["obs"]["post"]["B"][13] += 9      # component jobs of B
+            jobs["overwritten_colliding_object_noticed"] = (evs, lambda v: any(n == "C03.NoForeignWrite" for n, _, _ in v.monfail))
         if len(jobs) < 3:
             return {"ok": False, "why": "samples missing in the recorded trace: %s" % skipped}
         t0 = time.time()
